@@ -439,7 +439,17 @@ pub fn eval_fcase(c: &FCase, prop: &str) -> Result<FInfo, Verdict> {
         ..Default::default()
     };
     install_picker(&c.base.exec);
-    let built = build(&b, &c.base.exec, &opts, c.base.start);
+    let built = match catch_unwind(AssertUnwindSafe(|| build(&b, &c.base.exec, &opts, c.base.start))) {
+        Ok(x) => x,
+        Err(_) => {
+            uninstall_picker();
+            return Err(ffail(
+                &["C11"],
+                "call-panicked",
+                format!("SimInit::init panicked instead of returning an error (fault {:?})", c.fault),
+            ));
+        }
+    };
     let shared = built.shared.clone();
     let init_err = built.init_result.as_ref().err().map(classify);
     let x0 = expectation(c, &b, &q, &e0, true);
@@ -845,9 +855,26 @@ pub fn fcase_strategy(exec: BoxedStrategy<Exec>, spin: bool) -> BoxedStrategy<FC
                     proptest::option::weighted(0.4, 0u8..8),
                     proptest::collection::vec((0u8..10, -6i64..0), 0..3),
                     proptest::collection::vec((0u8..10, 0u64..5), 0..3),
+                    proptest::option::weighted(0.25, (any::<u16>(), 0u16..4, 0u8..4, 1u8..3, 1u8..4, 0u8..3, 0u8..3)),
                 )
-                    .prop_map(move |(fault, post, drop_after, invalids, forwards)| {
+                    .prop_map(move |(fault, post, drop_after, invalids, forwards, nested)| {
                         let mut base = base.clone();
+                        // co-simulation: some handler (or init) of some model builds, runs and
+                        // drops an inner simulation
+                        if let Some((mx, script, pos, threads, models, events, pending)) = nested {
+                            let nmod = base.bench.models.len();
+                            let m = &mut base.bench.models[pick_idx(mx, nmod)];
+                            let op = Op::Nested { threads, models, events, pending };
+                            let ns = m.scripts.len();
+                            if script as usize >= ns {
+                                let p = (pos as usize).min(m.init.len());
+                                m.init.insert(p, op);
+                            } else {
+                                let sc = &mut m.scripts[script as usize];
+                                let p = (pos as usize).min(sc.len());
+                                sc.insert(p, op);
+                            }
+                        }
                         // forward step_until calls (several slices and/or a final jump to an
                         // event-free time, where a clock lag can also strike)
                         for (pos, d) in forwards {
